@@ -83,7 +83,7 @@ def strategies():
     t_opt = st.one_of(st.none(), st.none(), st.sampled_from([0.0, 0.05, 0.2, 0.25, 0.6, 1.0, 2.0, 3.5]))
 
     # abort() from another thread released at the moment a given notification is being handled (None = not used)
-    on_evt = st.sampled_from([None, None, None, None, "EVT_RELEASED", "EVT_ESTABLISHED", "EVT_ACCEPTED", "EVT_REQUESTED", "EVT_ABORTED", "EVT_DIMSE_RECV", "EVT_ACSE_RECV"])
+    on_evt = st.sampled_from([None, None, None, None, "EVT_RELEASED", "EVT_RELEASED", "EVT_ESTABLISHED", "EVT_ACCEPTED", "EVT_REQUESTED", "EVT_ABORTED", "EVT_DIMSE_RECV", "EVT_ACSE_RECV"])
     on_evt_rq = st.sampled_from([None, None, None, None, None, "EVT_RELEASED", "EVT_ESTABLISHED", "EVT_ACSE_RECV", "EVT_DIMSE_SENT"])
 
     @st.composite
